@@ -186,6 +186,18 @@ NEAR_TWINS = [
     ("가", "가"),
 ]
 
+# doubled / halved escape characters of template and formatting mini-languages ($$ -> $, %% -> %, {{ -> {, \\ -> \) and
+# character references / escapes of other notations that spell a quote or another character
+NEAR_TWINS += [
+    ("pricing-$$", "pricing-$", "pricing-$$$", "pricing-$$$$", "pricing-${x}", "pricing-$x"),
+    ("save%%", "save%", "save%%%", "save%s", "save%(uid)s"),
+    ("a{{b}}", "a{b}", "a{{{b}}}", "a{}", "a{0}"),
+    ("p\\\\q", "p\\q", "pq", "p/q"),
+    ("fr&quot;x", 'fr"x', "fr&#34;x", "fr&amp;quot;x", "fr%22x", "fr\\u0022x", "fr\\x22x"),
+    ("it&apos;s", "it's", "it&#39;s", "it&#x27;s", "it%27s"),
+    ("a&lt;b", "a<b", "a&amp;lt;b"),
+]
+
 
 def near_twin_values():
     """flat list, group members adjacent"""
